@@ -65,6 +65,19 @@ PROPS = {
             {"run": "^TestC04$", "quick": 5000, "thorough": 30000},
         ],
     },
+    "C06": {
+        "level": "exploration",
+        "assumptions": [
+            "verdicts come from a worker subprocess with a 6 GiB address-space limit: process death, a 20 s watchdog (>= 10^4 x the normal cost of these <= 64 KiB inputs), recovered panics and MemStats.HeapSys growth",
+            "memory bound = growth of the heap footprint <= 32 MiB + 4096 x len(input); cumulative allocation is reported, not bounded (multi-block arrays are re-allocated per block)",
+            "excluded by construction: arrays whose items can encode to zero bytes, zero-width top-level records (legal unbounded amplification)",
+            "single-token mutations, truncations, bit flips and random bytes; multi-token malformations only via the native fuzz targets of the thorough tier",
+        ],
+        "units": [
+            regress("C06"),
+            {"run": "^TestC06$", "quick": 12000, "thorough": 120000, "timeout_quick": 900},
+        ],
+    },
     "C07": {
         "level": "fault_enumeration",
         "assumptions": [
